@@ -17,7 +17,7 @@ import (
 func init() {
 	register(&Prop{
 		ID:          "C06",
-		Explanation: "Decides sanitiser dominance for redirect targets: every http.Redirect in production code is enumerated and classified; the post-login, sign-in and sign-out redirects and the error/sign-in page links take, on every path, either result #0 of AppDirector.GetRedirect, the constant \"/\", or a value for which IsValidRedirect(value)==true was established on that path; GetRedirect returns only \"/\" or a candidate for which IsValidRedirect was true; the login redirect is provider.GetLoginURL(...), every implementation of which returns the String() of makeLoginURL's copy of the configured LoginURL, whose only field store is RawQuery; IsValidRedirect answers true only on the relative branch (prefix '/', not '//', no match of the invalid-redirect regex — atoms over the input only) or with IsEndpointAllowed(url.Parse(redirect), allowedDomains)==true after an error-free parse; IsEndpointAllowed answers true only for a non-empty whitelist host accepted by isHostnameAllowed together with one of the three port conditions; isHostnameAllowed admits sub-domains only through a suffix test whose operand is known to begin with '.', otherwise only by equality with the entry's bare name; and the relative-branch acceptance language, extracted from the path atoms and the regex constant, is disjoint — on the complete set of strings up to length 5 over a 15-symbol adversarial alphabet — from the strings that http.Redirect's rewriting followed by browser normalisation (tab/CR/LF removal, backslash as slash) turns into a scheme-relative '//' target. Added during the build: in request-reachable code no store goes into a field of the url.URL behind ProviderData.LoginURL/RedeemURL/ProfileURL/ValidateURL (R6). Round 4: Azure's tenant override rewrites only an unset or built-in default endpoint, and the rd candidate is read from req.Form, which holds query and body (R7).",
+		Explanation: "Decides sanitiser dominance for redirect targets: every http.Redirect in production code is enumerated and classified; the post-login, sign-in and sign-out redirects and the error/sign-in page links take, on every path, either result #0 of AppDirector.GetRedirect, the constant \"/\", or a value for which IsValidRedirect(value)==true was established on that path; GetRedirect returns only \"/\" or a candidate for which IsValidRedirect was true; the login redirect is provider.GetLoginURL(...), every implementation of which returns the String() of makeLoginURL's copy of the configured LoginURL, whose only field store is RawQuery; IsValidRedirect answers true only on the relative branch (prefix '/', not '//', no match of the invalid-redirect regex — atoms over the input only) or with IsEndpointAllowed(url.Parse(redirect), allowedDomains)==true after an error-free parse; IsEndpointAllowed answers true only for a non-empty whitelist host accepted by isHostnameAllowed together with one of the three port conditions; isHostnameAllowed admits sub-domains only through a suffix test whose operand is known to begin with '.', otherwise only by equality with the entry's bare name; and the relative-branch acceptance language, extracted from the path atoms and the regex constant, is disjoint — on the complete set of strings up to length 5 over a 15-symbol adversarial alphabet — from the strings that http.Redirect's rewriting followed by browser normalisation (tab/CR/LF removal, backslash as slash) turns into a scheme-relative '//' target. Added during the build: in request-reachable code no store goes into a field of the url.URL behind ProviderData.LoginURL/RedeemURL/ProfileURL/ValidateURL (R6). Round 4: Azure's tenant override rewrites only an unset or built-in default endpoint, and the rd candidate is read from req.Form, which holds query and body (R7). Round 5: GetRequestURI returns the forwarded-URI header value or the request URI itself, never a cut or rewritten string (R8).",
 		NotDecided:  "parser differentials on absolute URLs between url.Parse and browsers; strings longer than the enumeration bound or outside its alphabet; 'lands byte for byte' (value round trip through state).",
 		Run:         runC06,
 	})
@@ -182,6 +182,8 @@ func runC06(c *Ctx) {
 	runC06R6(c, "R6-endpoints-immutable")
 	r.Rule("R7-configured-endpoint-and-rd-source", "Azure's tenant override touches only an unset/default endpoint; the rd candidate comes from req.Form (query and body)", 2)
 	runC06R7(c, "R7-configured-endpoint-and-rd-source")
+	r.Rule("R8-requested-uri-verbatim", "the page the user asked for is taken verbatim: GetRequestURI returns the X-Forwarded-Uri header value or req.URL.RequestURI() itself, never a cut or rewritten string", 1)
+	runC06R8(c, "R8-requested-uri-verbatim")
 	runC06R5(c)
 }
 
@@ -871,5 +873,46 @@ func runC06R7(c *Ctx, rule string) {
 		} else {
 			c.R.Bad(rule, key, c.P.Pos(getter.Pos()), "the rd redirect candidate is not read from req.Form: a value posted in the sign-in form's body is ignored and the user lands on \"/\" instead of the page requested before login", nil, nil)
 		}
+	}
+}
+
+// runC06R8: the default post-login target is GetRequestURI's result (getURIRedirect), validated afterwards. The
+// validator accepts any same-site path, so a shortened or rewritten URI is still "valid" — the user simply lands
+// somewhere else than asked. Every return of GetRequestURI (helpers inlined) is the very result of
+// http.Header.Get(...) or of (*url.URL).RequestURI() on the request's URL; a string operation in between (a cut at
+// a comma, trimming, cleaning) is refused.
+func runC06R8(c *Ctx, rule string) {
+	getURI := c.Fn(rule, "pkg/requests/util.GetRequestURI")
+	if getURI == nil {
+		return
+	}
+	key := "verbatim|" + fnKey(getURI)
+	n, bad := 0, false
+	c.Walk(rule, getURI, func(p *walk.Path) {
+		rv, ok := p.ReturnDV(0)
+		if !ok || bad {
+			return
+		}
+		n++
+		cl, ok := extractOfCall(p, rv, 0)
+		if ok {
+			if sc := cl.C.StaticCallee(); sc != nil {
+				switch sc.String() {
+				case "(net/http.Header).Get", "(*net/url.URL).RequestURI":
+					return
+				}
+			}
+		}
+		bad = true
+		what := "a derived string"
+		if ok {
+			what = "the result of " + walk.CalleeName(cl.C)
+		}
+		c.bad(rule, key, p.Exit, "GetRequestURI returns "+what+" instead of the header value or the request URI itself: the page the user asked for (commas, spaces and all) is not where the login returns to", p, p.End())
+	})
+	if !bad && n > 0 {
+		c.R.OK(rule, key, c.P.Pos(getURI.Pos()), sprintf("%d return path(s): Header.Get(...) or URL.RequestURI(), unmodified", n))
+	} else if !bad {
+		c.R.Unknown(rule, key, c.P.Pos(getURI.Pos()), "no return path found")
 	}
 }
